@@ -1,5 +1,6 @@
-(* C12 — concurrent unordered containers (split-ordered list).  Property theorems only; proofs live in SolProofs.v. *)
-From OTV Require Import Lib.Tac SolModel SolProofs.
+(* C12 — concurrent unordered containers (split-ordered list) and ordered containers (lock-free skip list).
+   Property theorems only; proofs live in SolProofs.v and SkipProofs.v. *)
+From OTV Require Import Lib.Tac Lib.Conc SolModel SolProofs SkipModel SkipProofs.
 Local Open Scope Z_scope.
 
 (* For EVERY initial bucket count and EVERY sequence of insert / find (any keys >= 0, any number of table doublings
@@ -48,3 +49,91 @@ Example sol_example :
   let '(s, rs) := sol_run (sol_init 2) (map (fun i => (1, Z.of_nat i * 3)) (seq 0 40) ++ [(1, 6); (3, 117); (3, 118)]) in
   s_bc s = 16 /\ skipn 40 rs = [0; 1; 0].
 Proof. vm_compute. split; reflexivity. Qed.
+
+
+(* ------------------------------------------------------------------------------------------------------------------
+   Ordered containers: the lock-free skip list (SkipModel; one step = one atomic access to my_max_height or a next(level)
+   pointer).  All theorems: ANY number of threads, ANY scripts of insert / find whose nodes are well formed (the node of
+   insert(k) carries key k, is not the head and has a height in 1..32), ANY heights, ANY interleaving, starting from ANY
+   well-formed list g0 (GInv; the empty list is one: skip_empty_list_well_formed). *)
+Local Open Scope nat_scope.
+
+(* A unique-key ordered container never holds two equivalent keys and always iterates in comparator order: the level-0
+   chain is strictly increasing in every reachable state; every upper chain is ordered and is a sub-chain of the one below. *)
+Theorem skip_list_unique_and_ordered : forall key height g0 scripts c,
+  GInv key g0 -> Forall (Forall (op_wf key height)) scripts ->
+  reach (sstep key height) (g0, map sinit_loc scripts) c ->
+  ssorted key true (lvl (fst c) 0) /\ NoDup (map key (lvl (fst c) 0)) /\
+  (forall l, ssorted key false (lvl (fst c) l)) /\
+  (forall l z, In z (lvl (fst c) (S l)) -> In z (lvl (fst c) l)).
+Proof.
+  intros key height g0 scripts c HG Hs Hr.
+  destruct (CInv_reach key height _ _ (CInv_init key height _ _ HG Hs) Hr) as [(_ & _ & H0 & H1 & _ & H3) _].
+  split; [auto|]. split; [apply ssorted_strict_nodup; auto|]. split; auto.
+Qed.
+Print Assumptions skip_list_unique_and_ordered.
+
+Theorem skip_empty_list_well_formed : forall key, GInv key (mkS (repeat [] MAXL) 0).
+Proof. intros key. exact (GInv_empty key (fun _ => 1)). Qed.
+Print Assumptions skip_empty_list_well_formed.
+
+(* Exactly one of several concurrent inserts of the same absent key reports success, none if the key was present, and the
+   contents are the initial keys plus the successful inserts: in every reachable state, for every key k, the number of
+   nodes with key k in the list = the number there initially + the successful inserts of k (reported, or linked at level
+   0 and still linking upper levels), and that sum is at most 1; it is exactly 1 as soon as any insert(k) has returned. *)
+Theorem skip_list_one_winner_per_key : forall key height g0 scripts c k,
+  GInv key g0 -> Forall (Forall (op_wf key height)) scripts ->
+  reach (sstep key height) (g0, map sinit_loc scripts) c ->
+  cnt_key key k (lvl (fst c) 0) = cnt_key key k (lvl g0 0) + total k (snd c) /\
+  cnt_key key k (lvl g0 0) + total k (snd c) <= 1 /\
+  ((exists i l v b, nth_error (snd c) i = Some l /\ In (1%Z, k, v, b) (sl_res l)) ->
+   cnt_key key k (lvl g0 0) + total k (snd c) = 1).
+Proof.
+  intros key height g0 scripts c k HG Hs Hr.
+  assert (Hc := count_reach key height g0 scripts c k HG Hs Hr).
+  destruct (CInv_reach key height _ _ (CInv_init key height _ _ HG Hs) Hr) as [(_ & _ & H0 & _) HL].
+  assert (Hle := cnt_strict_le1 key height k _ H0).
+  split; [auto|]. split; [lia|]. intros (i & l & v & b & Hi & Hin).
+  destruct (HL _ _ Hi) as (_ & _ & _ & _ & Hres). rewrite Forall_forall in Hres. specialize (Hres _ Hin). cbn in Hres.
+  destruct Hres as [Hres _]. destruct (Hres eq_refl) as [Hk _]. assert (Hp := cnt_pos_in key height k _ Hk). lia.
+Qed.
+Print Assumptions skip_list_one_winner_per_key.
+
+(* find tells the truth: a find that reports the key found it in the list; a find that starts when the key is in the list
+   and my_max_height is positive (the ghost flag the model computes at the find's first access) reports it; and both
+   conditions hold for ever once any insert of that key has returned — so a find started after an insert returned finds it. *)
+Theorem skip_list_find_is_truthful : forall key height g0 scripts c i l k v b,
+  GInv key g0 -> Forall (Forall (op_wf key height)) scripts ->
+  reach (sstep key height) (g0, map sinit_loc scripts) c ->
+  nth_error (snd c) i = Some l -> In (2%Z, k, v, b) (sl_res l) ->
+  (v = 1%Z -> exists n, In n (lvl (fst c) 0) /\ key n = k) /\ (b = true -> v = 1%Z).
+Proof.
+  intros key height g0 scripts c i l k v b HG Hs Hr Hi Hin.
+  destruct (CInv_reach key height _ _ (CInv_init key height _ _ HG Hs) Hr) as [_ HL].
+  destruct (HL _ _ Hi) as (_ & _ & _ & _ & Hres). rewrite Forall_forall in Hres. specialize (Hres _ Hin). cbn in Hres.
+  destruct Hres as [_ Hres]. exact (Hres eq_refl).
+Qed.
+Print Assumptions skip_list_find_is_truthful.
+
+Theorem skip_list_returned_insert_is_visible : forall key height g0 scripts c i l k v b,
+  GInv key g0 -> Forall (Forall (op_wf key height)) scripts ->
+  reach (sstep key height) (g0, map sinit_loc scripts) c ->
+  nth_error (snd c) i = Some l -> In (1%Z, k, v, b) (sl_res l) ->
+  (existsb (fun n => (key n =? k)%Z) (lvl (fst c) 0) && (1 <=? s_max (fst c))) = true.
+Proof.
+  intros key height g0 scripts c i l k v b HG Hs Hr Hi Hin.
+  destruct (CInv_reach key height _ _ (CInv_init key height _ _ HG Hs) Hr) as [_ HL].
+  destruct (HL _ _ Hi) as (_ & _ & _ & _ & Hres). rewrite Forall_forall in Hres. specialize (Hres _ Hin). cbn in Hres.
+  destruct Hres as [Hres _]. destruct (Hres eq_refl) as [[n [Hn Hk]] Hm].
+  apply andb_true_iff. split; [|apply Nat.leb_le; auto].
+  apply existsb_exists. exists n. split; auto. apply Z.eqb_eq; auto.
+Qed.
+Print Assumptions skip_list_returned_insert_is_visible.
+
+(* non-vacuity: two threads race to insert key 15 (nodes 3 and 4) into the list 10, 20; the model's run (this very input and
+   output were produced by the real concurrent_skip_list under the gate) has one winner and ends with the chains below *)
+Example skip_example :
+  let out := run_skip [5; 0; 32; 10; 2; 20; 1; 15; 3; 15; 1;  2; 1; 2;  2;  1; 1; 15; 3;  2; 1; 15; 4; 2; 20; 0;  -1;
+                       0;0;1;1;1;1;0;0;0;0;0;1;1;1;0;1;1;0;0;0;1;1;1;1]%Z in
+  skipn (length out - 26) out = [-7; 1; 3; -8; 1; 15; 1; -8; 1; 15; 0; 2; 20; 1; -9; 0; 1; 3; 2; -9; 1; 1; 3; -9; 2; 3]%Z.
+Proof. vm_compute. reflexivity. Qed.
